@@ -580,6 +580,8 @@ def g_nfah_ops(rng):
         else:
             steps.append(f"cand:{i}")
         n += 1
+        if rng.random() < 0.35:
+            steps.append(f"rt:{rng.randrange(n)}")          # dump / reload round trip of an operand or a result (C13)
     return "nfah " + " ".join(steps)
 
 
@@ -913,7 +915,9 @@ def g_bddh(rng):
         elif c < 0.55:
             steps.append(f"union!{i}!{j}")
             if fam[i] == fam[j]:
-                new(fam[i])              # shared-table branch: a view of the same table
+                # shared-table branch (a view of the same table) – or, when a member of the family is a trimming result with
+                # a table of its own, a fresh table with small numbers: cover both
+                new(fam[i], {"f"})
             else:
                 new(None, {"f"})
         elif c < 0.68:
@@ -929,6 +933,8 @@ def g_bddh(rng):
             steps.append(f"unreach!{i}"); new(fam[i])
         else:
             steps.append(f"useless!{i}"); new(fam[i])
+        if rng.random() < 0.3:
+            steps.append(f"rt!{rng.choice(live)}")            # dump / reload round trip of an operand or a result (C13)
     return f"bddh {enc} " + " ".join(steps)
 
 
